@@ -1,6 +1,7 @@
 package checks
 
 import (
+	orbitdb "berty.tech/go-orbit-db"
 	"bytes"
 	"context"
 	"fmt"
@@ -19,7 +20,7 @@ var kvKeys = []string{"a", "A", "", "k/1", "ключ", "a b", "é", "long-key-01
 var kvVals = [][]byte{nil, {}, []byte("x"), {0, 1, 2, 255, 254}, []byte("{\"json\":true}"), bytes.Repeat([]byte("v"), 3000)}
 
 type KVOp struct {
-	Kind string `json:"kind"` // put | del | sync
+	Kind string `json:"kind"` // put | del | sync | put-merge-inside | del-merge-inside | reopen (the replica restarts and rebuilds its view from storage)
 	W    int    `json:"w"`
 	Key  int    `json:"key,omitempty"`
 	Val  int    `json:"val,omitempty"`
@@ -40,7 +41,7 @@ func genC06(rt *rapid.T) CaseC06 {
 	}
 	n := rapid.IntRange(1, maxOps).Draw(rt, "nops")
 	for i := 0; i < n; i++ {
-		kinds := []string{"put", "put", "put", "del", "del"}
+		kinds := []string{"put", "put", "put", "put", "del", "del", "del", "reopen"}
 		if c.Writers > 1 {
 			kinds = append(kinds, "sync", "sync", "put-merge-inside", "del-merge-inside")
 		}
@@ -191,6 +192,11 @@ func execC06(c CaseC06) *Outcome {
 			if parked {
 				o.Labels = append(o.Labels, "merge-inside-write")
 			}
+		case "reopen":
+			if err := cl.ReopenWith(ctx, w, -1, &orbitdb.CreateDBOptions{Replicate: &no}); err != nil {
+				return fail("step %d: replica %d cannot restart and load: %v", step, w, err)
+			}
+			o.Labels = append(o.Labels, "reopen")
 		case "sync":
 			src := op.From % c.Writers
 			if src == w {
@@ -205,7 +211,7 @@ func execC06(c CaseC06) *Outcome {
 			}
 			o.Labels = append(o.Labels, "sync")
 		}
-		if op.Kind != "sync" {
+		if op.Kind != "sync" && op.Kind != "reopen" {
 			if touched[op.Key] == nil {
 				touched[op.Key] = map[int]bool{}
 			}
